@@ -51,7 +51,7 @@ def path_atoms(f, path, decs):
                     if a2 is not None:
                         a = a2
         ptr += 1
-        out.append((b, a))
+        out.append((b, untry(a)))
     return out
 
 
@@ -335,33 +335,6 @@ def path_ret(f, path):
             s = Site(f, b, t)
             last = ('call', s.name, tuple(f.expr_operand(a, b, 'T') for a in t['args']), b)
     return last
-
-
-VARIANT_PRESERVING = ('std::option::Option::map', 'std::option::Option::as_ref', 'std::option::Option::as_mut', 'std::option::Option::cloned',
-                      'std::option::Option::copied', 'std::option::Option::inspect', 'std::option::Option::as_deref', 'std::option::Option::as_deref_mut',
-                      'std::result::Result::map', 'std::result::Result::map_err', 'std::result::Result::as_ref', 'std::result::Result::as_mut',
-                      'std::result::Result::inspect', 'std::result::Result::inspect_err')
-
-
-def untry(a):
-    """normalise the subject of a variant test: `x?` tests `Try::branch(x)` (Continue/Break of an Option is Some/None of x, of a
-    Result Ok/Err); `x.map(f)`, `x.as_ref()` ... are in the same variant as x"""
-    for _ in range(6):
-        if not (a and a[0] == 'is' and a[1][0] == 'call' and a[1][2]):
-            return a
-        n = a[1][1]
-        if n.endswith('std::ops::Try>::branch'):
-            if 'Option' in n:
-                a = ('is', a[1][2][0], {'Continue': 'Some', 'Break': 'None'}.get(a[2], a[2]))
-                continue
-            if 'Result' in n:
-                a = ('is', a[1][2][0], {'Continue': 'Ok', 'Break': 'Err'}.get(a[2], a[2]))
-                continue
-        if n in VARIANT_PRESERVING:
-            a = ('is', a[1][2][0], a[2])
-            continue
-        return a
-    return a
 
 
 def path_ret_resolved(f, path):
